@@ -433,6 +433,9 @@ func expectForStart(z *simdoh.Zone, in Input, observed string) *expect {
 		if pr := simdoh.NameProblems("_" + in.effScheme() + "." + host); len(pr) > 0 {
 			e.invalid = "query name: " + pr[0]
 			e.addErr("fail")
+		} else if len(simdoh.NameProblems("_65535._"+in.effScheme()+"."+host)) > 0 {
+			// with a port label the query name may be too long: refusing is fine too
+			e.addErr("invalid")
 		}
 		m.finish(e, ports, nil, host, "no HTTPS lookup")
 		return e
